@@ -513,6 +513,10 @@ func changeStoreMapping(oldMapping, newMapping mapping.IndexMapping, oldStore, n
 			lowerIntersectionBound := math.Max(outLowerBound, inLowerBound)
 			higherIntersectionBound := math.Min(outHigherBound, inHigherBound)
 			intersectionSize := higherIntersectionBound - lowerIntersectionBound
+			if intersectionSize <= 0 {
+				// Index() may be off by one bin within an ulp of a bin boundary: no overlap, nothing to transfer.
+				continue
+			}
 			proportion := intersectionSize / inSize
 			newStore.AddWithCount(outIndex, proportion*count)
 		}
